@@ -66,6 +66,17 @@ PROPS = {
             enum("fast", ["props/C16_enum.cpp"], qs=0, ts=16, lib="fast", cxxflags=["-DVP_FAST", "-O2"]),
         ],
     ),
+    "C14": dict(
+        level="exploration",
+        exhaustive_possible=True,
+        rule="cases are (kind, value) pairs through every encoder/decoder and (kind, octet string) pairs through the buffer and the source decoder, judged by a LEB128 "
+             "reference; non-trivial = a value needing >= 2 octets, or a string that is truncated, over-long or non-canonical; distinct by value/string",
+        assumptions=COMMON_ASSUME + ["buffers are presented with used == size, so 'end of the buffer' is unambiguous"],
+        targets=[
+            enum("enum", ["props/C14_enum.cpp"], qs=12, ts=16),
+            enum("fast", ["props/C14_enum.cpp"], qs=0, ts=16, lib="fast", cxxflags=["-DVP_FAST", "-O2"]),
+        ],
+    ),
 }
 
 NOTE_COMMON = ("trusted: clang/ASan/UBSan, the harness and its reference model; the search is bounded (see evidence: tier bounds and counts); "
@@ -93,6 +104,14 @@ MANIFEST_TEXT = {
         level_text="The update step is checked for every (state, octet) pair, which together with the concatenation law (checked at every split of random buffers) "
                    "determines the function on all inputs; the word variant is compared with the octet variant on the words' memory image. The step space is covered "
                    "exhaustively, buffers by sampling.",
+        level_note=NOTE_COMMON,
+    ),
+    "C14": dict(
+        engine="enum",
+        technique="bounded-exhaustive enumeration (all strings <= 8/11 over a 6-octet alphabet; thorough: all 2^32 32-bit values) + boundary/random 64-bit values against a LEB128 reference, ASan on exact-size blocks",
+        level_text="Every encoder and both decoders of all four kinds are compared with an independent LEB128 reference: exhaustively for all short octet strings over "
+                   "an adversarial alphabet (each placed so that the heap block ends at every truncation point) and, in the thorough tier, for all 2^32 32-bit values; "
+                   "64-bit values are covered at every 7-bit boundary, single bits and by random sampling.",
         level_note=NOTE_COMMON,
     ),
 }
